@@ -180,7 +180,7 @@ impl Property for C03 {
         640
     }
     fn cases(&self, tier: Tier) -> u64 {
-        tier.pick(3_000_000, 60_000_000)
+        tier.pick(8_000_000, 60_000_000)
     }
     fn run_tape(&self, tape: &[u8], ctx: &mut Ctx) -> Result<(), Failure> {
         let mut t = Tape::new(tape);
